@@ -366,9 +366,11 @@ func (p *printer) node(n *N) {
 	case "verbatim":
 		p.open("{%", n.TrimL)
 		p.tok("verbatim", "word", " ", "")
-		p.close("%}", false)
+		ws := func(c byte) bool { return c == ' ' || c == '\t' || c == '\n' || c == '\r' }
+		inner := n.TrimI && n.S != "" && !ws(n.S[0]) && !ws(n.S[len(n.S)-1])
+		p.close("%}", inner)
 		p.raw(n.S, "text", "")
-		p.open("{%", false)
+		p.open("{%", inner)
 		p.tok("endverbatim", "word", " ", "")
 		p.close("%}", n.TrimR)
 	case "if":
